@@ -242,6 +242,9 @@ class Models:
                 raise AbsRaise(ExcVal('TypeError', (str(e),)), node)
         if isinstance(fn, PyCallable):
             return fn.fn(interp, args, kwargs, node)
+        hk = getattr(fn, 'abs_call', None)
+        if hk is not None:
+            return hk(interp, args, kwargs, node)
         from . import bridge
         if isinstance(fn, bridge.RealObj):
             return bridge.real_call(interp, repr(fn), fn, args, kwargs, node)
@@ -339,6 +342,8 @@ class Models:
         return models_np.iterate_model(self, interp, v, node)
 
     def to_str(self, interp, v, node):
+        if isinstance(v, ExcVal):
+            return str(v.args[0]) if len(v.args) == 1 else (str(tuple(v.args)) if v.args else '')
         if isinstance(v, (str, int, bool, type(None), tuple, list, dict)):
             return str(v)
         if isinstance(v, Fr):
